@@ -22,7 +22,7 @@ namespace C22
 theorem c22_init (present : List Nat) :
     Inv { present := present } ∧ Uniq { present := present } ∧
       ({ present := present } : St).store.NodupIdx := by
-  refine ⟨⟨⟨⟨?_, ?_, ?_⟩, ?_⟩, rfl, by simp, ?_, RMap.noDupKeys_nil⟩, ?_, ?_⟩
+  refine ⟨⟨⟨⟨?_, ?_, ?_⟩, ?_⟩, by simp, ?_, RMap.noDupKeys_nil⟩, ?_, ?_⟩
   · intro c id h; simp [Store.has, Store.idx] at h
   · intro c id h; simp [Store.has, Store.idx] at h
   · intro c id h; simp [Store.has, Store.idx] at h
